@@ -636,6 +636,81 @@ Proof.
       apply is_collision_false in C; cbn; lia.
 Qed.
 
+(* what a successful add_segment_to_fjm does to the words the reader will see *)
+Lemma add_segment_words wr first last fj wf wr' b :
+  add_segment_to_fjm ww ver wr first last fj wf = Ok (wr', b) -> wr_inv wr ->
+  first mod wd = 0 /\ last mod wd = 0 /\ 0 <= first /\ last <= M
+  /\ (forall sg i, In sg (w_segs wr) -> (match sg with (_, _, _, dl) => 0 <= i < dl end) -> rb wr' sg i = rb wr sg i)
+  /\ (if b then
+        let s := first / wd in
+        let l := (last - first) / wd in
+        let ds := Z.of_nat (List.length (w_data wr)) in
+        let dl := Z.of_nat (List.length (fj ++ wf)) in
+        w_segs wr' = w_segs wr ++ [(s, l, ds, dl)] /\ dl <= l /\ first < last /\ first = s * wd /\ last = (s + l) * wd
+        /\ (forall i, 0 <= i < dl -> rb wr' (s, l, ds, dl) i = norm (s + i) (nth (Z.to_nat i) (fj ++ wf) 0))
+      else first = last /\ wr' = wr).
+Proof.
+  unfold add_segment_to_fjm. pose proof (wz_pos ww) as Hw. pose proof M_pos as HM.
+  change (wz ww) with wd in Hw.
+  destruct (validate_addresses ww first last) as [k|] eqn:Ev; [discriminate|].
+  unfold validate_addresses, in_memory in Ev.
+  destruct (first mod wd =? 0) eqn:E1; cbn [negb orb] in Ev; [|discriminate].
+  destruct (last mod wd =? 0) eqn:E2; cbn [negb orb] in Ev; [|discriminate].
+  destruct ((0 <=? first) && (first <? M)) eqn:E3; cbn [negb] in Ev; [|discriminate].
+  destruct ((0 <=? last - 1) && (last - 1 <? M)) eqn:E4; cbn [negb] in Ev; [|discriminate].
+  apply Z.eqb_eq in E1, E2. apply andb_true_iff in E3, E4. destruct E3 as [E3 E3'], E4 as [E4 E4'].
+  apply Z.leb_le in E3, E4. apply Z.ltb_lt in E3', E4'.
+  intros H [Hok Hpw].
+  split; [exact E1|]. split; [exact E2|]. split; [exact E3|]. split; [lia|].
+  destruct (first =? last) eqn:Efl.
+  - apply Z.eqb_eq in Efl. injection H as <- <-. split; [reflexivity|]. split; [exact Efl|reflexivity].
+  - apply Z.eqb_neq in Efl.
+    set (data := fj ++ wf) in *.
+    set (ds := Z.of_nat (List.length (w_data wr))) in *.
+    set (dl := Z.of_nat (List.length data)) in *.
+    set (s := first / wd) in *. set (l := (last - first) / wd) in *.
+    unfold writer_add_segment in H. cbn [w_segs w_data] in H.
+    destruct (l <=? 0) eqn:L1; [discriminate|]. apply Z.leb_gt in L1.
+    destruct (l <? dl) eqn:L2; [discriminate|]. apply Z.ltb_ge in L2.
+    destruct ((s mod 2 =? 1) || (l mod 2 =? 1)) eqn:L3; [discriminate|].
+    apply orb_false_iff in L3. destruct L3 as [L3 L3']. apply Z.eqb_neq in L3, L3'.
+    destruct (existsb _ (w_segs wr)) eqn:L4; [discriminate|].
+    match type of H with context [if ?c then None else Some _] => destruct c eqn:L5; [discriminate|] end.
+    injection H as <- <-. cbn [w_segs w_data].
+    assert (Hs : first = s * wd) by (unfold s; apply Z.mod_divide in E1; [destruct E1 as [q ->]; now rewrite Z.div_mul by lia|lia]).
+    assert (Hl : last - first = l * wd).
+    { unfold l. assert ((last - first) mod wd = 0) by (rewrite Zminus_mod, E1, E2; reflexivity).
+      apply Z.mod_divide in H; [destruct H as [q ->]; now rewrite Z.div_mul by lia|lia]. }
+    assert (Hse : Z.even s = true) by (pose proof (Zmod_even s) as X; pose proof (Z.mod_pos_bound s 2); destruct (Z.even s); [reflexivity|lia]).
+    set (data' := if rel then relativize ww (w_data wr ++ data) 0 ds dl s else w_data wr ++ data).
+    split.
+    + (* old segments *)
+      intros [[[s0 l0] ds0] dl0] i Hin Hi. unfold rb. cbn [w_data].
+      rewrite Forall_forall in Hok. specialize (Hok _ Hin). cbn in Hok.
+      destruct Hok as (_ & _ & _ & _ & _ & O6 & O7 & O8). fold ds in O8.
+      assert (Hidx : (Z.to_nat (ds0 + i) < List.length (w_data wr))%nat) by (unfold ds in O8; lia).
+      assert (nth (Z.to_nat (ds0 + i)) data' 0 = nth (Z.to_nat (ds0 + i)) (w_data wr) 0) as ->; [|reflexivity].
+      unfold data'. destruct rel.
+      * rewrite nth_relativize by (rewrite app_length; lia). cbn zeta.
+        assert ((0 <=? 0 + Z.of_nat (Z.to_nat (ds0 + i)) - ds) = false) as -> by (apply Z.leb_gt; lia).
+        cbn [andb]. now apply app_nth1.
+      * now apply app_nth1.
+    + split; [reflexivity|]. split; [exact L2|]. split; [nia|]. split; [exact Hs|]. split; [nia|].
+      intros i Hi. unfold rb. cbn [w_data]. fold data'.
+      assert (Hidx : Z.to_nat (ds + i) = (List.length (w_data wr) + Z.to_nat i)%nat) by (unfold ds; lia).
+      assert (Hnth : nth (Z.to_nat (ds + i)) (w_data wr ++ data) 0 = nth (Z.to_nat i) data 0).
+      { rewrite Hidx, app_nth2 by lia. f_equal. lia. }
+      assert (Hodd : Z.odd (s + i) = Z.odd i).
+      { rewrite Z.odd_add. rewrite <- Z.negb_even, Hse. cbn. now destruct (Z.odd i). }
+      unfold norm. rewrite Hodd. unfold data'. destruct rel eqn:Er; cbn [andb].
+      * rewrite nth_relativize by (rewrite app_length; unfold dl in Hi; lia). cbn zeta.
+        replace (0 + Z.of_nat (Z.to_nat (ds + i)) - ds) with i by lia.
+        assert ((0 <=? i) = true) as -> by (apply Z.leb_le; lia).
+        assert ((i <? dl) = true) as -> by (apply Z.ltb_lt; lia). cbn [andb].
+        rewrite Hnth. destruct (Z.odd i); [|reflexivity]. now apply mod_add_back.
+      * exact Hnth.
+Qed.
+
 End Writer.
 
 (* ================= the last phase: label table and writer invariants ================= *)
@@ -656,7 +731,10 @@ Proof. unfold set_ref. destruct (fst r); cbn; auto. Qed.
 Lemma spot_frame st :
   b_labels (fst (get_wflip_spot ww st)) = b_labels st /\ b_wcount (fst (get_wflip_spot ww st)) = b_wcount st
   /\ b_wr (fst (get_wflip_spot ww st)) = b_wr st.
-Proof. unfold get_wflip_spot. destruct (b_pads st); cbn; auto. Qed.
+Proof.
+  unfold get_wflip_spot. destruct (pop_hole ww (b_first st) (b_pads st)) as [[[i a]|] rest]; [cbn; auto|].
+  destruct (skip_input_op ww 2 (b_nextw st) (b_wf st)) as [nw wf]; cbn; auto.
+Qed.
 
 Lemma insert_wflip_label_good st a :
   good st -> good (insert_wflip_label st a) /\ extends (b_labels st) (b_labels (insert_wflip_label st a)).
@@ -838,10 +916,10 @@ Qed.
 
 (* ================= the full statements (not yet proved in full: see Properties/C02.v) ================= *)
 
-(* guards = the recorded defects of the tree: F17 (lexical_labels), F16 (aux_on_io), F18 (reserves_nonneg); the last
+(* guards = the recorded defects of the tree: F17 (lexical_labels), F18 (reserves_nonneg); the last
    conjunct is about the code BEFORE the fix of F8 only (strict = false): it is true whenever strict = true *)
 Definition C02_guards (ww ver : N) (strict : bool) (P : list stmt) (lbls : labels) : bool :=
-  lexical_labels P && negb (aux_on_io ww lbls) && reserves_nonneg ww P lbls
+  lexical_labels P && reserves_nonneg ww P lbls
   && ((ver <? 2)%N || strict || values_in_range ww P lbls).
 
 Definition C02_sound_statement : Prop :=
@@ -864,4 +942,824 @@ Proof.
   intros Hs ww ver strict P Himp segs words lbls H.
   destruct (C02_guards ww ver strict P lbls) eqn:G; [|reflexivity].
   elim (Himp _ _ (Hs _ _ _ _ _ _ _ H G)).
+Qed.
+
+(* ================= the image the reader returns ================= *)
+
+Lemma fold_mset_none l : forall m0 a, ~ In a (map fst l) ->
+  mget (fold_left (fun m p => mset m (fst p) (snd p)) l m0) a = mget m0 a.
+Proof.
+  induction l as [|[k v] l IH]; intros m0 a Hn; cbn [fold_left]; [reflexivity|].
+  cbn [map] in Hn. rewrite IH by (intros X; apply Hn; now right). cbn [fst snd]. apply mget_mset_other.
+  intros ->. apply Hn. now left.
+Qed.
+
+Lemma fold_mset_some l : forall m0 a v, NoDup (map fst l) -> In (a, v) l ->
+  mget (fold_left (fun m p => mset m (fst p) (snd p)) l m0) a = Some v.
+Proof.
+  induction l as [|[k x] l IH]; intros m0 a v Hnd Hin; [contradiction|].
+  cbn [map fst] in Hnd. inversion Hnd as [|? ? Hk Hnd']; subst. cbn [fold_left fst snd].
+  destruct Hin as [E|Hin].
+  - injection E as -> ->. rewrite fold_mset_none by exact Hk. apply mget_mset_same.
+  - now apply IH.
+Qed.
+
+Lemma mem_of_list_some l a v : NoDup (map fst l) -> In (a, v) l -> mget (mem_of_list l) a = Some v.
+Proof. apply fold_mset_some. Qed.
+Lemma mem_of_list_none l a : ~ In a (map fst l) -> mget (mem_of_list l) a = None.
+Proof. intros H. unfold mem_of_list. rewrite fold_mset_none by exact H. apply mget_empty. Qed.
+
+Lemma NoDup_app_intro {A} (a b : list A) :
+  NoDup a -> NoDup b -> (forall x, In x a -> In x b -> False) -> NoDup (a ++ b).
+Proof.
+  induction a as [|x a IH]; intros Ha Hb Hd; [exact Hb|].
+  inversion Ha as [|? ? Hx Ha']; subst. cbn. constructor.
+  - rewrite in_app_iff. intros [H|H]; [contradiction|]. apply (Hd x); [now left|exact H].
+  - apply IH; auto. intros y Y1 Y2. apply (Hd y); [now right|exact Y2].
+Qed.
+
+Section Image.
+Variable ww : N.
+Variable ver : N.
+Notation wd := (wd ww).
+Notation M := (2 ^ wd).
+Notation rel := (relative_versions ver).
+
+(* the value the reader computes for the k-th word of a data slice placed at offset i of a segment starting at s *)
+Definition sw_val (data : list Z) (s i : Z) (k : nat) : Z :=
+  let x := nth k data 0 in
+  if rel && Z.odd (i + Z.of_nat k) then (x + (s + (i + Z.of_nat k)) * wd) mod M else x.
+
+Lemma seg_words_spec : forall n data s i a v,
+  In (a, v) (seg_words ww ver data s i n) <->
+  exists k, (k < n)%nat /\ (k < List.length data)%nat /\ a = Z.to_N (s + (i + Z.of_nat k))
+            /\ sw_val data s i k <> 0 /\ v = Z.to_N (sw_val data s i k).
+Proof.
+  induction n as [|n IH]; intros data s i a v.
+  - split; [intros H; destruct data; cbn in H; contradiction|]. intros (k & Hk & _). lia.
+  - destruct data as [|x data]; cbn [seg_words].
+    + split; [intros H; cbn in H; contradiction|]. intros (k & _ & Hk & _). cbn in Hk. lia.
+    + rewrite in_app_iff, IH. split.
+      * intros [H|(k & K1 & K2 & K3 & K4 & K5)].
+        -- exists 0%nat. unfold sw_val. cbn [nth]. rewrite Z.add_0_r.
+           destruct (_ =? 0) eqn:E; [contradiction|]. apply Z.eqb_neq in E.
+           destruct H as [H|[]]. injection H as <- <-. cbn [List.length]. repeat split; try lia; try exact E.
+        -- exists (S k). unfold sw_val in *. cbn [nth List.length].
+           replace (i + Z.of_nat (S k)) with (i + 1 + Z.of_nat k) by lia. repeat split; try lia; assumption.
+      * intros (k & K1 & K2 & K3 & K4 & K5). destruct k as [|k].
+        -- left. unfold sw_val in K4, K5. cbn [nth] in K4, K5. rewrite Z.add_0_r in *.
+           destruct (_ =? 0) eqn:E; [apply Z.eqb_eq in E; contradiction|]. left. now subst.
+        -- right. exists k. unfold sw_val in *. cbn [nth List.length] in *.
+           replace (i + Z.of_nat (S k)) with (i + 1 + Z.of_nat k) in * by lia. repeat split; try lia; assumption.
+Qed.
+
+Lemma seg_words_keys_nodup : forall n data s i, 0 <= s + i -> NoDup (map fst (seg_words ww ver data s i n)).
+Proof.
+  induction n as [|n IH]; intros data s i H0; [destruct data; constructor|].
+  destruct data as [|x data]; cbn [seg_words]; [constructor|].
+  rewrite map_app. assert (Hrest : NoDup (map fst (seg_words ww ver data s (i + 1) n))) by (apply IH; lia).
+  destruct (_ =? 0); cbn [map app fst]; [exact Hrest|].
+  constructor; [|exact Hrest]. intros Hin. apply in_map_iff in Hin. destruct Hin as [[a v] [E Hin]]. cbn [fst] in E. subst a.
+  apply seg_words_spec in Hin. destruct Hin as (k & _ & _ & K3 & _). lia.
+Qed.
+
+Definition seg_keys_in (wr : wstate) (sg : seg) (a : N) : Prop :=
+  match sg with (s, _, _, dl) => Z.of_N a < s + dl /\ s <= Z.of_N a end.
+
+Lemma read_words_in wr a v :
+  In (a, v) (read_words ww ver wr) <->
+  exists s l ds dl k, In (s, l, ds, dl) (w_segs wr) /\ (k < Z.to_nat dl)%nat
+                      /\ (k < List.length (skipn (Z.to_nat ds) (w_data wr)))%nat /\ a = Z.to_N (s + Z.of_nat k)
+                      /\ sw_val (skipn (Z.to_nat ds) (w_data wr)) s 0 k <> 0
+                      /\ v = Z.to_N (sw_val (skipn (Z.to_nat ds) (w_data wr)) s 0 k).
+Proof.
+  unfold read_words. rewrite in_flat_map. split.
+  - intros ([[[s l] ds] dl] & Hin & H). apply seg_words_spec in H. destruct H as (k & K). exists s, l, ds, dl, k.
+    rewrite Z.add_0_l in K. tauto.
+  - intros (s & l & ds & dl & k & Hin & K). exists (s, l, ds, dl). split; [exact Hin|].
+    apply seg_words_spec. exists k. rewrite Z.add_0_l. tauto.
+Qed.
+
+Lemma read_words_nodup wr : wr_inv ww wr -> NoDup (map fst (read_words ww ver wr)).
+Proof.
+  intros [Hok Hpw]. unfold read_words. induction (w_segs wr) as [|[[[s l] ds] dl] r IH]; cbn [flat_map]; [constructor|].
+  inversion Hok as [|? ? O Hok']; subst. cbn [pairwise] in Hpw. destruct Hpw as [Hd Hpw'].
+  rewrite map_app. apply NoDup_app_intro.
+  - apply seg_words_keys_nodup. cbn in O. lia.
+  - now apply IH.
+  - intros a H1 H2. apply in_map_iff in H1, H2.
+    destruct H1 as [[a1 v1] [E1 H1]], H2 as [[a2 v2] [E2 H2]]. cbn [fst] in E1, E2. subst a1 a2.
+    apply seg_words_spec in H1. destruct H1 as (k & K1 & _ & K3 & _).
+    apply in_flat_map in H2. destruct H2 as ([[[s2 l2] ds2] dl2] & Hin2 & H2).
+    apply seg_words_spec in H2. destruct H2 as (k2 & J1 & _ & J3 & _).
+    rewrite Forall_forall in Hd, Hok'. specialize (Hd _ Hin2). specialize (Hok' _ Hin2). cbn in Hd, Hok', O. lia.
+Qed.
+
+Lemma nth_skipn_add {A} (d : A) : forall n l k, nth k (skipn n l) d = nth (n + k) l d.
+Proof.
+  induction n as [|n IH]; intros l k; [reflexivity|].
+  destruct l as [|x l]; cbn [skipn]; [now destruct k|]. apply IH.
+Qed.
+
+Lemma pairwise_in (l : list seg) a b : pairwise l -> In a l -> In b l -> a = b \/ seg_disj a b.
+Proof.
+  induction l as [|x r IH]; intros Hp Ha Hb; [contradiction|].
+  cbn [pairwise] in Hp. destruct Hp as [Hx Hr]. rewrite Forall_forall in Hx.
+  destruct Ha as [Ea|Ha], Hb as [Eb|Hb].
+  - left. congruence.
+  - right. subst x. now apply Hx.
+  - right. subst x. specialize (Hx _ Ha). destruct b as [[[? ?] ?] ?], a as [[[? ?] ?] ?]. cbn in *. lia.
+  - now apply IH.
+Qed.
+
+Lemma sw_val_rb wr s l ds dl i :
+  0 <= ds -> 0 <= i ->
+  sw_val (skipn (Z.to_nat ds) (w_data wr)) s 0 (Z.to_nat i) = rb ww ver wr (s, l, ds, dl) i.
+Proof.
+  intros Hds Hi. unfold sw_val, rb. rewrite nth_skipn_add, Z.add_0_l, Z2Nat.id by lia.
+  replace (Z.to_nat ds + Z.to_nat i)%nat with (Z.to_nat (ds + i)) by lia. reflexivity.
+Qed.
+
+Lemma key_absent wr a :
+  wr_inv ww wr ->
+  (forall s l ds dl k, In (s, l, ds, dl) (w_segs wr) -> 0 <= k < dl -> Z.of_N a = s + k ->
+                       rb ww ver wr (s, l, ds, dl) k = 0) ->
+  ~ In a (map fst (read_words ww ver wr)).
+Proof.
+  intros [Hok Hpw] Hz Hin. apply in_map_iff in Hin. destruct Hin as [[a' v] [E Hin]]. cbn [fst] in E. subst a'.
+  apply read_words_in in Hin. destruct Hin as (s & l & ds & dl & k & Hs & K1 & K2 & K3 & K4 & _).
+  rewrite Forall_forall in Hok. pose proof (Hok _ Hs) as O. cbn in O.
+  assert (E : rb ww ver wr (s, l, ds, dl) (Z.of_nat k) = 0).
+  { apply Hz; [exact Hs|lia|]. subst a. rewrite Z2N.id; lia. }
+  rewrite <- sw_val_rb in E by lia. rewrite Nat2Z.id in E. contradiction.
+Qed.
+
+Lemma final_word wr s l ds dl i :
+  wr_inv ww wr -> In (s, l, ds, dl) (w_segs wr) -> 0 <= i < dl -> 0 <= rb ww ver wr (s, l, ds, dl) i ->
+  mget0 (mem_of_list (read_words ww ver wr)) (Z.to_N (s + i)) = Z.to_N (rb ww ver wr (s, l, ds, dl) i).
+Proof.
+  intros Hinv Hs Hi Hpos. pose proof Hinv as [Hok Hpw].
+  rewrite Forall_forall in Hok. pose proof (Hok _ Hs) as O. cbn in O.
+  unfold mget0. destruct (Z.eq_dec (rb ww ver wr (s, l, ds, dl) i) 0) as [E0|Ene].
+  - rewrite E0. rewrite mem_of_list_none; [reflexivity|].
+    apply key_absent; [exact Hinv|]. intros s2 l2 ds2 dl2 k Hs2 Hk Ha. rewrite Z2N.id in Ha by lia.
+    destruct (pairwise_in _ _ _ Hpw Hs Hs2) as [E|D].
+    + injection E as <- <- <- <-. assert (k = i) by lia. now subst k.
+    + pose proof (Hok _ Hs2) as O2. cbn in O2, D. lia.
+  - erewrite mem_of_list_some; [reflexivity|now apply read_words_nodup|].
+    apply read_words_in. exists s, l, ds, dl, (Z.to_nat i).
+    rewrite (sw_val_rb wr s l ds dl i) by lia. rewrite Z2Nat.id by lia.
+    repeat split; auto; try lia. rewrite skipn_length. lia.
+Qed.
+
+Lemma final_zero wr s l ds dl a :
+  wr_inv ww wr -> In (s, l, ds, dl) (w_segs wr) -> s + dl <= a < s + l ->
+  mget0 (mem_of_list (read_words ww ver wr)) (Z.to_N a) = 0%N.
+Proof.
+  intros Hinv Hs Ha. pose proof Hinv as [Hok Hpw].
+  rewrite Forall_forall in Hok. pose proof (Hok _ Hs) as O. cbn in O.
+  unfold mget0. rewrite mem_of_list_none; [reflexivity|].
+  apply key_absent; [exact Hinv|]. intros s2 l2 ds2 dl2 k Hs2 Hk Hak. rewrite Z2N.id in Hak by lia.
+  destruct (pairwise_in _ _ _ Hpw Hs Hs2) as [E|D].
+  - injection E as <- <- <- <-. lia.
+  - pose proof (Hok _ Hs2) as O2. cbn in O2, D. lia.
+Qed.
+
+Lemma final_valid wr s l ds dl a :
+  wr_inv ww wr -> In (s, l, ds, dl) (w_segs wr) -> s <= a < s + l -> valid (read_segments wr) (Z.to_N a) = true.
+Proof.
+  intros [Hok _] Hs Ha. rewrite Forall_forall in Hok. pose proof (Hok _ Hs) as O. cbn in O.
+  unfold valid, read_segments. apply existsb_exists. exists (Z.to_N s, Z.to_N l). split.
+  - apply in_map_iff. exists (s, l, ds, dl). split; [reflexivity|exact Hs].
+  - cbn [fst snd]. apply andb_true_iff. split; [apply N.leb_le|apply N.ltb_lt]; lia.
+Qed.
+
+Lemma even_to_N z : 0 <= z -> N.even (Z.to_N z) = Z.even z.
+Proof. destruct z as [|p|p]; intros H; [reflexivity| |lia]. now destruct p. Qed.
+
+Lemma wr_inv_loadable wr : wr_inv ww wr -> loadable_segs ww (read_segments wr) = true.
+Proof.
+  intros [Hok Hpw]. unfold loadable_segs, read_segments. apply andb_true_iff. split.
+  - apply forallb_forall. intros [s l] Hin. apply in_map_iff in Hin. destruct Hin as [[[[s0 l0] ds0] dl0] [E Hin]].
+    injection E as <- <-. rewrite Forall_forall in Hok. specialize (Hok _ Hin). cbn in Hok.
+    destruct Hok as (O1 & O2 & O3 & O4 & O5 & _).
+    unfold seg_ok. cbn [fst snd]. repeat (apply andb_true_iff; split).
+    + rewrite even_to_N by lia. exact O2.
+    + rewrite even_to_N by lia. exact O3.
+    + apply N.ltb_lt. lia.
+    + apply N.leb_le. rewrite N.shiftl_1_l.
+      assert (Hlt : (ww < 2 ^ ww)%N) by (apply N.pow_gt_lin_r; lia).
+      assert (Hww : (2 ^ ww * 2 ^ (w ww - ww) = 2 ^ w ww)%N).
+      { rewrite <- N.pow_add_r. f_equal. unfold w. rewrite N.shiftl_1_l. lia. }
+      assert (Hwd : wd = Z.of_N (2 ^ ww)) by (unfold Layout.wd, wz, w; now rewrite N.shiftl_1_l).
+      assert (HM : M = Z.of_N (2 ^ w ww)) by (unfold Layout.wd, wz; rewrite N2Z.inj_pow; reflexivity).
+      rewrite HM, Hwd, <- Hww in O5.
+      assert (0 < 2 ^ ww)%N by (apply N.neq_0_lt_0, N.pow_nonzero; discriminate).
+      nia.
+  - induction (w_segs wr) as [|[[[s l] ds] dl] r IH]; cbn [map pairwise_disjoint]; [reflexivity|].
+    cbn [pairwise] in Hpw. destruct Hpw as [H1 H2]. inversion Hok as [|? ? O Hok']; subst.
+    apply andb_true_iff. split; [|now apply IH].
+    clear IH H2. induction r as [|[[[s2 l2] ds2] dl2] r IH]; cbn [map disjoint_from]; [reflexivity|].
+    inversion H1 as [|? ? D H1']; subst. inversion Hok' as [|? ? O2 Hok'']; subst.
+    apply andb_true_iff. split; [|apply IH; auto].
+    cbn [fst snd]. cbn in D, O, O2. apply orb_true_iff.
+    destruct D as [D|D]; [left|right]; apply N.leb_le; lia.
+Qed.
+
+End Image.
+
+(* ================= static soundness: op words and reserved ranges ================= *)
+Section Static.
+Variable ww : N.
+Variable ver : N.
+Notation wd := (wd ww).
+Notation dwd := (dwd ww).
+Notation M := (2 ^ wd).
+
+(* later writer states keep the segments and the words of earlier ones *)
+Definition wr_le (wr wr' : wstate) : Prop :=
+  (forall sg, In sg (w_segs wr) -> In sg (w_segs wr'))
+  /\ (forall sg i, In sg (w_segs wr) -> (match sg with (_, _, _, dl) => 0 <= i < dl end) ->
+                   rb ww ver wr' sg i = rb ww ver wr sg i).
+
+Lemma wr_le_refl wr : wr_le wr wr.
+Proof. split; auto. Qed.
+Lemma wr_le_trans a b c : wr_le a b -> wr_le b c -> wr_le a c.
+Proof.
+  intros [A1 A2] [B1 B2]. split; [auto|]. intros sg i Hs Hi. rewrite B2 by auto. now apply A2.
+Qed.
+
+Lemma emitted_mono wr wr' a v : wr_le wr wr' -> emitted ww ver wr a v -> emitted ww ver wr' a v.
+Proof.
+  intros [L1 L2] (s & l & ds & dl & i & Hs & Hi & Ha & Hr). exists s, l, ds, dl, i.
+  repeat split; auto; try lia. rewrite L2; auto.
+Qed.
+
+Lemma add_segment_le wr first last fj wf wr' b :
+  add_segment_to_fjm ww ver wr first last fj wf = Ok (wr', b) -> wr_inv ww wr -> wr_le wr wr'.
+Proof.
+  intros H Hinv. destruct (add_segment_words _ _ _ _ _ _ _ _ _ H Hinv) as (_ & _ & _ & _ & Hold & Hb).
+  split; [|exact Hold]. destruct b.
+  - destruct Hb as (E & _). rewrite E. intros sg Hs. apply in_or_app. now left.
+  - destruct Hb as (_ & ->). auto.
+Qed.
+
+(* ---- lists ---- *)
+Lemma set_nth_length l : forall i v, List.length (set_nth l i v) = List.length l.
+Proof. induction l as [|x l IH]; intros [|i] v; cbn; auto. Qed.
+Lemma set_nth_other l : forall i j v, i <> j -> nth_error (set_nth l i v) j = nth_error l j.
+Proof.
+  induction l as [|x l IH]; intros [|i] [|j] v H; cbn; auto; try congruence.
+Qed.
+
+Definition hole_slot (pads : list nat) (i : nat) : Prop := exists h, In h pads /\ (i = h \/ i = S h).
+
+Definition pend_ok (st : bstate) (iv : nat * Z) : Prop :=
+  nth_error (b_fj st) (fst iv) = Some (snd iv) /\ ~ hole_slot (b_pads st) (fst iv).
+
+(* the part of the state a wflip statement may not disturb *)
+Record core (first cur : Z) (wr : wstate) (ws : Z) (nfj : nat) (pend : list (nat * Z)) (st : bstate) : Prop := {
+  c_first : b_first st = first;
+  c_cur : b_cur st = cur;
+  c_wr : b_wr st = wr;
+  c_nw : b_nextw st = ws + wd * Z.of_nat (List.length (b_wf st));
+  c_len : List.length (b_fj st) = nfj;
+  c_pads : Forall (fun h => S h < nfj)%nat (b_pads st);
+  c_pend : Forall (pend_ok st) pend
+}.
+
+Definition slot_free (pend : list (nat * Z)) (r : wlist * nat) : Prop :=
+  match fst r with FJ => forall v, ~ In (snd r, v) pend | WF => True end.
+
+Lemma set_ref_core first cur wr ws nfj pend st r v :
+  core first cur wr ws nfj pend st -> slot_free pend r -> core first cur wr ws nfj pend (set_ref st r v).
+Proof.
+  intros [C1 C2 C3 C4 C5 C6 C7] Hf. destruct r as [[|] j]; unfold set_ref; cbn [fst snd]; constructor;
+    cbn [b_first b_cur b_wr b_nextw b_wf b_fj b_pads]; auto; try (now rewrite set_nth_length).
+  rewrite Forall_forall in *. intros [i x] Hin. specialize (C7 _ Hin). destruct C7 as [P1 P2].
+  split; [|exact P2]. cbn [fst snd b_fj] in *. rewrite set_nth_other; [exact P1|].
+  intros ->. apply (Hf x). exact Hin.
+Qed.
+
+Lemma pop_hole_spec first pads : forall r rest,
+  pop_hole ww first pads = (r, rest) ->
+  (forall h, In h rest -> In h pads)
+  /\ match r with Some (i, a) => In i pads /\ a = first + wd * Z.of_nat i | None => rest = [] end.
+Proof.
+  induction pads as [|i pads IH]; intros r rest H; cbn [pop_hole] in H.
+  - injection H as <- <-. split; auto.
+  - destruct (covers_input_bit ww (first + wd * Z.of_nat i)).
+    + destruct (IH _ _ H) as [A B]. split; [intros h Hh; right; auto|].
+      destruct r as [[j a]|]; [destruct B; split; [now right|assumption]|assumption].
+    + injection H as <- <-. split; [intros h Hh; now right|]. split; [now left|reflexivity].
+Qed.
+
+Lemma skip_input_op_spec : forall fuel nextw wf nw wf',
+  skip_input_op ww fuel nextw wf = (nw, wf') ->
+  nw - wd * Z.of_nat (List.length wf') = nextw - wd * Z.of_nat (List.length wf).
+Proof.
+  induction fuel as [|k IH]; intros nextw wf nw wf' H; cbn [skip_input_op] in H.
+  - now injection H as <- <-.
+  - destruct (covers_input_bit ww nextw); [|now injection H as <- <-].
+    apply IH in H. rewrite H, app_length. cbn [List.length]. unfold Layout.dwd. lia.
+Qed.
+
+Lemma hole_slot_incl pads pads' i : (forall h, In h pads' -> In h pads) -> hole_slot pads' i -> hole_slot pads i.
+Proof. intros H (h & Hh & E). exists h. auto. Qed.
+
+Lemma spot_core first cur wr ws nfj pend st st1 wl idx addr :
+  get_wflip_spot ww st = (st1, (wl, idx, addr)) -> core first cur wr ws nfj pend st ->
+  core first cur wr ws nfj pend st1 /\ slot_free pend (wl, idx) /\ slot_free pend (wl, S idx)
+  /\ b_labels st1 = b_labels st /\ b_wcount st1 = b_wcount st /\ b_dict st1 = b_dict st.
+Proof.
+  unfold get_wflip_spot. intros H [C1 C2 C3 C4 C5 C6 C7].
+  destruct (pop_hole ww (b_first st) (b_pads st)) as [[[i a]|] rest] eqn:Ep.
+  - injection H as <- <- <- <-. destruct (pop_hole_spec _ _ _ _ Ep) as [Hincl [Hi Ha]].
+    assert (Hfree : forall k v, (k = i \/ k = S i) -> ~ In (k, v) pend).
+    { intros k v Hk Hin. rewrite Forall_forall in C7. destruct (C7 _ Hin) as [_ P2]. apply P2. exists i. auto. }
+    split; [|split; [|split; [|auto]]].
+    + constructor; cbn [b_first b_cur b_wr b_nextw b_wf b_fj b_pads]; auto.
+      * rewrite Forall_forall in *. auto.
+      * rewrite Forall_forall in *. intros iv Hin. destruct (C7 _ Hin) as [P1 P2]. split; [exact P1|].
+        intros Hh. apply P2. eapply hole_slot_incl; eauto.
+    + intros v. apply Hfree. now left.
+    + intros v. apply Hfree. now right.
+  - destruct (skip_input_op ww 2 (b_nextw st) (b_wf st)) as [nw wf] eqn:Es.
+    injection H as <- <- <- <-. apply skip_input_op_spec in Es.
+    split; [|cbn; auto].
+    constructor; cbn [b_first b_cur b_wr b_nextw b_wf b_fj b_pads]; auto.
+    + rewrite app_length. cbn [List.length]. unfold Layout.dwd. lia.
+    + rewrite Forall_forall in *. intros iv Hin. destruct (C7 _ Hin) as [P1 P2]. split; [exact P1|].
+      intros (h & [] & _).
+Qed.
+
+Lemma wflip_loop_core first cur wr ws nfj pend rest : forall st ret last,
+  core first cur wr ws nfj pend st -> slot_free pend last ->
+  core first cur wr ws nfj pend (wflip_loop ww st ret rest last).
+Proof.
+  induction rest as [|x rest IH]; intros st ret last Hc Hf; cbn [wflip_loop].
+  - now apply set_ref_core.
+  - destruct (dict_find (b_dict st) ret (x :: rest)) as [e|]; [now apply set_ref_core|].
+    destruct (get_wflip_spot ww st) as [st1 [[wl idx] addr]] eqn:Es.
+    destruct (spot_core _ _ _ _ _ _ _ _ _ _ _ Es Hc) as (C1 & F1 & F2 & _).
+    apply IH; [|exact F2].
+    apply set_ref_core; [|exact F1].
+    assert (C2 : core first cur wr ws nfj pend (insert_wflip_label st1 addr)) by (destruct C1; constructor; auto).
+    pose proof (set_ref_core _ _ _ _ _ _ _ last addr C2 Hf) as C3.
+    destruct C3; constructor; auto.
+Qed.
+
+
+Lemma pend_lt st pend i v : Forall (pend_ok st) pend -> In (i, v) pend -> (i < List.length (b_fj st))%nat.
+Proof.
+  intros H Hin. rewrite Forall_forall in H. destruct (H _ Hin) as [P _]. cbn in P.
+  apply nth_error_Some. congruence.
+Qed.
+
+Lemma insert_fj_core first cur wr ws n pend st f j :
+  core first cur wr ws n pend st -> core first (cur + dwd) wr ws (n + 2) pend (insert_fj_op ww st f j).
+Proof.
+  intros [C1 C2 C3 C4 C5 C6 C7]. unfold insert_fj_op.
+  constructor; cbn [b_first b_cur b_wr b_nextw b_wf b_fj b_pads]; auto.
+  - now rewrite C2.
+  - rewrite app_length, C5. cbn. lia.
+  - eapply Forall_impl; [|exact C6]. cbn. lia.
+  - rewrite Forall_forall in *. intros iv Hin. destruct (C7 _ Hin) as [P1 P2]. split; [|exact P2].
+    cbn [b_fj]. rewrite nth_error_app1; [exact P1|]. apply nth_error_Some. congruence.
+Qed.
+
+Lemma bits_nonempty A V :
+  V <> 0 -> in_memory ww V = true -> map (fun i => A + i) (filter (Z.testbit V) (bit_list ww)) <> [].
+Proof.
+  unfold in_memory. intros Hne Hm. apply andb_true_iff in Hm. destruct Hm as [H0 H1].
+  apply Z.leb_le in H0. apply Z.ltb_lt in H1. assert (Hpos : 0 < V) by lia.
+  assert (Hin : In (Z.log2 V) (filter (Z.testbit V) (bit_list ww))).
+  { apply filter_In. split; [|now apply Z.bit_log2].
+    unfold bit_list. apply in_map_iff. exists (Z.to_nat (Z.log2 V)).
+    pose proof (Z.log2_nonneg V). split; [lia|]. apply in_seq.
+    assert (Z.log2 V < wd) by (apply Z.log2_lt_pow2; assumption). lia. }
+  destruct (filter (Z.testbit V) (bit_list ww)); [contradiction|discriminate].
+Qed.
+
+Lemma insert_wflip_core first cur wr ws pend st st' A V R :
+  insert_wflip_ops ww st A V R = Ok st' -> core first cur wr ws (List.length (b_fj st)) pend st ->
+  core first (cur + dwd) wr ws (List.length (b_fj st) + 2) pend st'.
+Proof.
+  unfold insert_wflip_ops. intros H Hc. destruct (V =? 0) eqn:EV.
+  - injection H as <-. now apply insert_fj_core.
+  - apply Z.eqb_neq in EV. destruct (negb (in_memory ww V)) eqn:Em; [discriminate|].
+    apply negb_false_iff in Em. pose proof (bits_nonempty A V EV Em) as Hne.
+    destruct (map _ _) as [|x rest]; [congruence|]. injection H as <-.
+    pose proof (insert_fj_core _ _ _ _ _ _ _ x 0 Hc) as C1.
+    apply wflip_loop_core; [exact C1|].
+    unfold slot_free. cbn [fst snd]. intros v Hin.
+    destruct Hc as [_ _ _ _ _ _ C7]. pose proof (pend_lt _ _ _ _ C7 Hin) as Hlt.
+    unfold insert_fj_op in Hlt. cbn [b_fj] in Hlt. rewrite app_length in Hlt. cbn [List.length] in Hlt. lia.
+Qed.
+
+Lemma wflip_loop_wr rest : forall st ret last, b_wr (wflip_loop ww st ret rest last) = b_wr st.
+Proof.
+  induction rest as [|x rest IH]; intros st ret last; cbn [wflip_loop].
+  - now destruct (set_ref_frame st last ret) as (_ & _ & ->).
+  - destruct (dict_find (b_dict st) ret (x :: rest)) as [e|].
+    + now destruct (set_ref_frame st last e) as (_ & _ & ->).
+    + destruct (get_wflip_spot ww st) as [st1 [[wl idx] addr]] eqn:Es.
+      pose proof (spot_frame ww st) as F. rewrite Es in F. cbn [fst] in F. destruct F as (_ & _ & F3).
+      rewrite IH.
+      destruct (set_ref_frame (dict_add (set_ref (insert_wflip_label st1 addr) last addr) ret (x :: rest) addr) (wl, idx) x)
+        as (_ & _ & ->).
+      cbn [dict_add b_wr]. destruct (set_ref_frame (insert_wflip_label st1 addr) last addr) as (_ & _ & ->).
+      cbn [insert_wflip_label b_wr]. exact F3.
+Qed.
+
+(* every word of fj_words is emitted where it belongs when the piece is added *)
+Lemma add_segment_emits wr first last fj wf wr' i v :
+  add_segment_to_fjm ww ver wr first last fj wf = Ok (wr', true) -> wr_inv ww wr ->
+  nth_error fj i = Some v -> emitted ww ver wr' (first / wd + Z.of_nat i) v.
+Proof.
+  intros H Hinv Hn. destruct (add_segment_words _ _ _ _ _ _ _ _ _ H Hinv) as (_ & _ & _ & _ & _ & Hb).
+  cbn zeta in Hb. destruct Hb as (Eseg & Hdl & _ & _ & _ & Hrb).
+  assert (Hi : (i < List.length fj)%nat) by (apply nth_error_Some; congruence).
+  exists (first / wd), ((last - first) / wd), (Z.of_nat (List.length (w_data wr))), (Z.of_nat (List.length (fj ++ wf))),
+    (Z.of_nat i).
+  split; [rewrite Eseg; apply in_or_app; right; now left|].
+  rewrite app_length. split; [lia|]. split; [reflexivity|].
+  rewrite <- app_length. rewrite Hrb by (rewrite app_length; lia). rewrite Nat2Z.id.
+  f_equal. rewrite app_nth1 by exact Hi. now apply nth_error_nth.
+Qed.
+
+Definition sinv (ws : Z) (pend : list (nat * Z)) (st : bstate) : Prop :=
+  core (b_first st) (b_cur st) (b_wr st) ws (List.length (b_fj st)) pend st
+  /\ wr_inv ww (b_wr st) /\ b_first st mod wd = 0
+  /\ b_cur st = b_first st + wd * Z.of_nat (List.length (b_fj st)).
+
+(* closing the current piece at the end of the segment's code *)
+Lemma close_emits st st' ws pend :
+  close_and_add_segment ww ver st = Ok st' -> sinv ws pend st -> ws = b_cur st ->
+  Forall (fun iv => emitted ww ver (b_wr st') (b_first st / wd + Z.of_nat (fst iv)) (snd iv)) pend
+  /\ wr_le (b_wr st) (b_wr st') /\ wr_inv ww (b_wr st')
+  /\ b_fj st' = [] /\ b_wf st' = [] /\ b_labels st' = b_labels st /\ b_wcount st' = b_wcount st.
+Proof.
+  unfold close_and_add_segment. intros H (Hc & Hinv & Hal & Hcur) Hws. pose proof (wz_pos ww) as Hw.
+  change (wz ww) with wd in Hw. destruct Hc as [_ _ _ C4 _ _ C7].
+  destruct (b_nextw st =? b_first st) eqn:E.
+  - apply Z.eqb_eq in E. injection H as <-.
+    assert (Hz : List.length (b_fj st) = 0%nat /\ List.length (b_wf st) = 0%nat) by nia.
+    destruct Hz as [Z1 Z2]. apply length_zero_iff_nil in Z1, Z2.
+    split; [|split; [apply wr_le_refl|split; [exact Hinv|split; [exact Z1|split; [exact Z2|split; reflexivity]]]]].
+    apply Forall_forall. intros [i v] Hin. pose proof (pend_lt _ _ _ _ C7 Hin) as Hlt. rewrite Z1 in Hlt. cbn in Hlt. lia.
+  - apply Z.eqb_neq in E.
+    destruct (add_segment_to_fjm ww ver (b_wr st) (b_first st) (b_nextw st) (b_fj st) (b_wf st)) as [[wr c]| |] eqn:Ea;
+      cbn [bind] in H; try discriminate.
+    injection H as <-. cbn [b_wr b_fj b_wf b_labels b_wcount].
+    assert (c = true) as ->.
+    { destruct c; [reflexivity|]. destruct (add_segment_words _ _ _ _ _ _ _ _ _ Ea Hinv) as (_ & _ & _ & _ & _ & Hb).
+      destruct Hb as [Hb _]. congruence. }
+    split; [|split; [eapply add_segment_le; eauto|split; [eapply add_segment_inv; eauto|repeat split; reflexivity]]].
+    apply Forall_forall. intros [i v] Hin. rewrite Forall_forall in C7. destruct (C7 _ Hin) as [P1 _].
+    eapply add_segment_emits; eauto.
+Qed.
+
+
+Lemma insert_padding_core first cur wr ws n pend st k :
+  0 <= k -> core first cur wr ws n pend st -> List.length (b_fj st) = n ->
+  core first (cur + k * dwd) wr ws (n + 2 * Z.to_nat k) pend (insert_padding ww st k).
+Proof.
+  intros Hk [C1 C2 C3 C4 C5 C6 C7] Hn. unfold insert_padding. clear Hn. subst n.
+  constructor; cbn [b_first b_cur b_wr b_nextw b_wf b_fj b_pads]; auto.
+  - now rewrite C2.
+  - rewrite app_length, repeat_length. lia.
+  - apply Forall_app. split.
+    + apply Forall_forall. intros h Hh. rewrite <- in_rev in Hh. apply in_map_iff in Hh.
+      destruct Hh as (i & <- & Hi). apply in_seq in Hi. lia.
+    + eapply Forall_impl; [|exact C6]. cbn. lia.
+  - rewrite Forall_forall in *. intros [i v] Hin. destruct (C7 _ Hin) as [P1 P2]. cbn [fst snd] in *.
+    assert (Hlt : (i < List.length (b_fj st))%nat) by (apply nth_error_Some; congruence).
+    split; [cbn [b_fj fst snd]; rewrite nth_error_app1; [exact P1|exact Hlt]|]. cbn [fst].
+    intros (h & Hh & E). cbn [b_pads] in Hh. apply in_app_or in Hh. destruct Hh as [Hh|Hh].
+    + rewrite <- in_rev in Hh. apply in_map_iff in Hh. destruct Hh as (j & <- & _). lia.
+    + apply P2. exists h. auto.
+Qed.
+
+Fixpoint chain (a : Z) (L : list placed) : Prop :=
+  match L with [] => True | p :: L' => pl_addr p = a /\ chain (pl_next p) L' end.
+
+Lemma place_chain env : forall P a L, place ww env P a = Some L -> chain a L.
+Proof.
+  induction P as [|s P IH]; intros a L H; cbn [place] in H.
+  - injection H as <-. exact I.
+  - destruct (next_addr ww env s a) as [a'|]; [|discriminate].
+    destruct (place ww env P a') as [L'|] eqn:E; [|discriminate]. injection H as <-.
+    cbn. split; [reflexivity|]. now apply IH.
+Qed.
+
+Definition res_nonneg (p : placed) : Prop :=
+  match pl_stmt p with SReserve _ _ => pl_addr p <= pl_next p | _ => True end.
+
+Definition static_ok (wrF : wstate) (lF : labels) (p : placed) : Prop :=
+  let a := pl_addr p in
+  let a' := pl_next p in
+  match pl_stmt p with
+  | SFlipJump f j _ =>
+    exists vf vj, eval_expr (env_at lF a') f = Some vf /\ eval_expr (env_at lF a') j = Some vj
+                  /\ in_memory ww vf = true /\ in_memory ww vj = true /\ a mod wd = 0
+                  /\ emitted ww ver wrF (a / wd) vf /\ emitted ww ver wrF (a / wd + 1) vj
+  | SReserve _ _ =>
+    0 <= a <= a' /\ a mod wd = 0 /\ a' mod wd = 0
+    /\ (a < a' -> exists s l ds dl, In (s, l, ds, dl) (w_segs wrF) /\ s + dl = a / wd /\ s + l = a' / wd)
+  | SSegment _ _ => a' mod wd = 0
+  | _ => True
+  end.
+
+Lemma run_extends ops st st1 stF :
+  resolve_loop ww ver true st ops = Ok st1 -> close_and_add_segment ww ver st1 = Ok stF -> good ww st ->
+  extends (b_labels st) (b_labels stF).
+Proof.
+  intros H1 H2 Hg. destruct (resolve_loop_good _ _ _ _ _ _ H1 Hg) as [G X].
+  destruct (close_good _ _ _ _ H2 G) as [_ E]. now rewrite E.
+Qed.
+
+Lemma div_first_add first n : first mod wd = 0 -> (first + wd * Z.of_nat n) / wd = first / wd + Z.of_nat n.
+Proof.
+  intros _. pose proof (wz_pos ww) as Hw. change (wz ww) with wd in Hw.
+  rewrite (Z.mul_comm wd), Z.div_add by lia. reflexivity.
+Qed.
+
+Lemma mod_first_add first n : first mod wd = 0 -> (first + wd * Z.of_nat n) mod wd = 0.
+Proof.
+  intros H. pose proof (wz_pos ww) as Hw. change (wz ww) with wd in Hw.
+  rewrite (Z.mul_comm wd), Z.mod_add by lia. exact H.
+Qed.
+
+
+Definition pend_emitted (wrF : wstate) (first : Z) (pend : list (nat * Z)) : Prop :=
+  Forall (fun iv => emitted ww ver wrF (first / wd + Z.of_nat (fst iv)) (snd iv)) pend.
+
+Lemma pend_emitted_mono wr wr' first pend : wr_le wr wr' -> pend_emitted wr first pend -> pend_emitted wr' first pend.
+Proof. intros Hle H. eapply Forall_impl; [|exact H]. intros iv. now apply emitted_mono. Qed.
+
+Lemma sinv_build st' first cur wr ws n pend :
+  core first cur wr ws n pend st' -> wr_inv ww wr -> first mod wd = 0 -> cur = first + wd * Z.of_nat n ->
+  sinv ws pend st'.
+Proof.
+  intros C Hinv Hal Hcur. pose proof C as [C1 C2 C3 C4 C5 C6 C7]. unfold sinv.
+  rewrite C1, C2, C3, C5. auto.
+Qed.
+
+Lemma run_static L : forall ops st st1 stF ws pend,
+  resolve_loop ww ver true st ops = Ok st1 -> close_and_add_segment ww ver st1 = Ok stF ->
+  ops_rel ww L ops -> chain (b_cur st) L -> sinv ws pend st -> ws = code_end (b_cur st) L ->
+  Forall res_nonneg L -> good ww st ->
+  pend_emitted (b_wr stF) (b_first st) pend
+  /\ Forall (static_ok (b_wr stF) (b_labels stF)) L
+  /\ wr_le (b_wr st) (b_wr stF).
+Proof.
+  pose proof (wz_pos ww) as Hw. change (wz ww) with wd in Hw.
+  induction L as [|p L IH]; intros ops st st1 stF ws pend Hrun Hclose Hrel Hch Hs Hws Hres Hg.
+  - cbn in Hrel. subst ops. cbn in Hrun. injection Hrun as <-. cbn [code_end] in Hws.
+    destruct (close_emits _ _ _ _ Hclose Hs Hws) as (E & Hle & _). split; [exact E|]. split; [constructor|exact Hle].
+  - cbn [chain] in Hch. destruct Hch as [Ha Hch]. pose proof (Forall_inv Hres) as Hr. pose proof (Forall_inv_tail Hres) as Hres'.
+    pose proof Hs as (Hc & Hinv & Hal & Hcur).
+    cbn [ops_rel] in Hrel. cbn [code_end] in *. unfold is_segment, res_nonneg, static_ok in *.
+    destruct (pl_stmt p) as [f j ?|ea ev er ?|e ?|name ?|? ? ?|? ? ? ? ?|e ?|e ?] eqn:Est; try contradiction.
+    + (* op *)
+      destruct Hrel as (f' & j' & r & Ef & Ej & Hn & -> & Hrel).
+      pose proof (run_extends _ _ _ _ Hrun Hclose Hg) as Hext.
+      cbn [resolve_loop bind resolve_step] in Hrun.
+      destruct (exact_eval (b_labels st) f') as [vf|] eqn:Evf; [|discriminate].
+      destruct (exact_eval (b_labels st) j') as [vj|] eqn:Evj; [|discriminate].
+      destruct (in_memory ww vf && in_memory ww vj) eqn:Em; cbn [andb negb] in Hrun; [|discriminate].
+      apply andb_true_iff in Em. destruct Em as [Em1 Em2].
+      set (n := List.length (b_fj st)) in *.
+      set (st' := insert_fj_op ww st vf vj) in *.
+      pose proof (insert_fj_core _ _ _ _ _ _ _ vf vj Hc) as C'. fold st' in C'.
+      assert (Cn : core (b_first st) (b_cur st + dwd) (b_wr st) ws (n + 2) (pend ++ [(n, vf); (S n, vj)]) st').
+      { destruct C' as [C1 C2 C3 C4 C5 C6 C7]. constructor; auto. apply Forall_app. split; [exact C7|].
+        assert (Hh : forall k, (n <= k)%nat -> ~ hole_slot (b_pads st') k).
+        { intros k Hk (h & Hh & E). unfold st', insert_fj_op in Hh. cbn [b_pads] in Hh.
+          destruct Hc as [_ _ _ _ _ D6 _]. rewrite Forall_forall in D6. specialize (D6 _ Hh). lia. }
+        constructor; [|constructor; [|constructor]]; (split; [|apply Hh; cbn; lia]); cbn [fst snd];
+          unfold st', insert_fj_op; cbn [b_fj]; rewrite nth_error_app2 by (fold n; lia); fold n.
+        - now replace (n - n)%nat with 0%nat by lia.
+        - now replace (S n - n)%nat with 1%nat by lia. }
+      assert (S' : sinv ws (pend ++ [(n, vf); (S n, vj)]) st').
+      { eapply sinv_build; [exact Cn|exact Hinv|exact Hal|]. rewrite Hcur. unfold Layout.dwd. lia. }
+      assert (G' : good ww st') by exact Hg.
+      assert (Hcur' : b_cur st' = pl_next p) by (unfold st', insert_fj_op; cbn [b_cur]; lia).
+      destruct (IH _ _ _ _ _ _ Hrun Hclose Hrel ltac:(rewrite Hcur'; exact Hch) S'
+                   ltac:(rewrite Hcur'; exact Hws) Hres' G') as (E & Hst & Hle).
+      unfold pend_emitted in E. apply Forall_app in E. destruct E as [E1 E2].
+      inversion E2 as [|? ? X1 E3]; subst. inversion E3 as [|? ? X2 _]; subst. cbn [fst snd] in X1, X2.
+      split; [exact E1|]. split; [|exact Hle].
+      constructor; [|exact Hst]. rewrite Est. exists vf, vj.
+      assert (Hdiv : pl_addr p / wd = b_first st / wd + Z.of_nat n).
+      { rewrite Ha, Hcur. now apply div_first_add. }
+      repeat split; auto.
+      * eapply eval_mono_at; [exact Hext|]. unfold exact_eval in Evf.
+        now rewrite (eval_new_correct (Some (pl_next p)) (b_labels st) f f' Ef) in Evf.
+      * eapply eval_mono_at; [exact Hext|]. unfold exact_eval in Evj.
+        now rewrite (eval_new_correct (Some (pl_next p)) (b_labels st) j j' Ej) in Evj.
+      * rewrite Ha, Hcur. now apply mod_first_add.
+      * now rewrite Hdiv.
+      * rewrite Hdiv. replace (b_first st / wd + Z.of_nat n + 1) with (b_first st / wd + Z.of_nat (S n)) by lia. exact X2.
+    + (* wflip *)
+      destruct Hrel as (a' & v' & r' & r & _ & _ & _ & Hn & -> & Hrel).
+      cbn [resolve_loop bind] in Hrun.
+      destruct (resolve_step ww ver true st (LWordFlip a' v' r')) as [st'| |] eqn:Estep; try discriminate.
+      destruct (resolve_step_good _ _ _ _ _ _ Estep Hg) as [G' _].
+      cbn [resolve_step] in Estep.
+      destruct (exact_eval (b_labels st) a') as [A|]; [|discriminate].
+      destruct (exact_eval (b_labels st) v') as [V|]; [|discriminate].
+      destruct (exact_eval (b_labels st) r') as [R|]; [|discriminate].
+      destruct (true && _); [discriminate|].
+      pose proof (insert_wflip_core _ _ _ _ _ _ _ _ _ _ Estep Hc) as C'.
+      assert (S' : sinv ws pend st').
+      { eapply sinv_build; [exact C'|exact Hinv|exact Hal|]. rewrite Hcur. unfold Layout.dwd. lia. }
+      assert (Hcur' : b_cur st' = pl_next p) by (destruct C' as [_ C2 _ _ _ _ _]; rewrite C2; lia).
+      assert (Hf' : b_first st' = b_first st) by (now destruct C').
+      assert (Hwr' : b_wr st' = b_wr st) by (now destruct C').
+      destruct (IH _ _ _ _ _ _ Hrun Hclose Hrel ltac:(rewrite Hcur'; exact Hch) S'
+                   ltac:(rewrite Hcur'; exact Hws) Hres' G') as (E & Hst & Hle).
+      rewrite Hf' in E. rewrite Hwr' in Hle. split; [exact E|]. split; [|exact Hle].
+      constructor; [now rewrite Est|exact Hst].
+    + (* pad *)
+      destruct Hrel as (k & r & Hk & Hn & -> & Hrel).
+      cbn [resolve_loop bind resolve_step] in Hrun.
+      set (st' := insert_padding ww st k) in *.
+      pose proof (insert_padding_core _ _ _ _ _ _ _ k Hk Hc eq_refl) as C'. fold st' in C'.
+      assert (S' : sinv ws pend st').
+      { eapply sinv_build; [exact C'|exact Hinv|exact Hal|]. rewrite Hcur. unfold Layout.dwd. lia. }
+      assert (Hcur' : b_cur st' = pl_next p) by (destruct C' as [_ C2 _ _ _ _ _]; rewrite C2; lia).
+      assert (Hf' : b_first st' = b_first st) by (now destruct C').
+      assert (Hwr' : b_wr st' = b_wr st) by (now destruct C').
+      destruct (IH _ _ _ _ _ _ Hrun Hclose Hrel ltac:(rewrite Hcur'; exact Hch) S'
+                   ltac:(rewrite Hcur'; exact Hws) Hres' Hg) as (E & Hst & Hle).
+      rewrite Hf' in E. rewrite Hwr' in Hle. split; [exact E|]. split; [|exact Hle].
+      constructor; [now rewrite Est|exact Hst].
+    + (* label *)
+      destruct Hrel as (Hn & Hrel).
+      destruct (IH _ _ _ _ _ _ Hrun Hclose Hrel ltac:(rewrite Hn, Ha in Hch; exact Hch) Hs
+                   ltac:(rewrite Hn, Ha in Hws; exact Hws) Hres' Hg) as (E & Hst & Hle).
+      split; [exact E|]. split; [|exact Hle]. constructor; [now rewrite Est|exact Hst].
+    + (* segment *)
+      destruct Hrel as (r & Hn & -> & Hrel).
+      cbn [resolve_loop bind] in Hrun.
+      destruct (resolve_step ww ver true st (LNewSeg (pl_next p) (code_end (pl_next p) L))) as [st'| |] eqn:Estep;
+        try discriminate.
+      destruct (resolve_step_good _ _ _ _ _ _ Estep Hg) as [G' _].
+      cbn [resolve_step] in Estep. unfold insert_new_segment in Estep.
+      destruct (close_and_add_segment ww ver st) as [stc| |] eqn:Ec; cbn [bind] in Estep; try discriminate.
+      injection Estep as <-.
+      destruct (close_emits _ _ _ _ Ec Hs ltac:(rewrite Hws; exact Ha)) as (E0 & Hle0 & Hinv0 & F1 & F2 & _).
+      rewrite F1, F2 in *.
+      set (st' := mkb _ _ _ _ _ _ _ _ _ _) in *.
+      assert (S' : sinv (code_end (pl_next p) L) [] st').
+      { apply sinv_build with (first := pl_next p) (cur := pl_next p) (wr := b_wr stc) (n := 0%nat);
+          [|exact Hinv0|exact Hn|lia].
+        constructor; unfold st'; cbn [b_first b_cur b_wr b_nextw b_wf b_fj b_pads List.length];
+          try reflexivity; try lia; apply Forall_nil. }
+      destruct (IH _ _ _ _ _ _ Hrun Hclose Hrel Hch S' eq_refl Hres' G') as (_ & Hst & Hle).
+      cbn [st' b_wr] in Hle.
+      split; [eapply pend_emitted_mono; [exact Hle|exact E0]|]. split; [|eapply wr_le_trans; eassumption].
+      constructor; [now rewrite Est|exact Hst].
+    + (* reserve *)
+      destruct Hrel as (r & Hn & -> & Hrel).
+      cbn [resolve_loop bind] in Hrun.
+      destruct (resolve_step ww ver true st (LReserve (pl_next p))) as [st'| |] eqn:Estep; try discriminate.
+      destruct (resolve_step_good _ _ _ _ _ _ Estep Hg) as [G' _].
+      cbn [resolve_step] in Estep. unfold insert_reserve_bits in Estep.
+      destruct (add_segment_to_fjm ww ver (b_wr st) (b_first st) (pl_next p) (b_fj st) []) as [[wr c]| |] eqn:Ea;
+        cbn [bind] in Estep; try discriminate.
+      injection Estep as <-.
+      destruct (add_segment_words _ _ _ _ _ _ _ _ _ Ea Hinv) as (W1 & W2 & W3 & W4 & _ & Wb).
+      pose proof (add_segment_le _ _ _ _ _ _ _ Ea Hinv) as Hle0.
+      pose proof (add_segment_inv _ _ _ _ _ _ _ _ _ Ea Hinv) as Hinv0.
+      set (n := List.length (b_fj st)) in *.
+      assert (Hfj : (if c then [] else b_fj st) = []).
+      { destruct c; [reflexivity|]. destruct Wb as [Wb _]. apply length_zero_iff_nil. fold n. nia. }
+      rewrite Hfj in *.
+      set (st' := mkb _ _ _ _ _ _ _ _ _ _) in *.
+      assert (S' : sinv ws [] st').
+      { destruct Hc as [_ _ _ C4 _ _ _].
+        apply sinv_build with (first := pl_next p) (cur := pl_next p) (wr := wr) (n := 0%nat);
+          [|exact Hinv0|exact W2|lia].
+        constructor; unfold st'; cbn [b_first b_cur b_wr b_nextw b_wf b_fj b_pads List.length];
+          try reflexivity; try exact C4; apply Forall_nil. }
+      destruct (IH _ _ _ _ _ _ Hrun Hclose Hrel Hch S' Hws Hres' G') as (_ & Hst & Hle).
+      cbn [st' b_wr] in Hle.
+      assert (Hdiv : pl_addr p / wd = b_first st / wd + Z.of_nat n) by (rewrite Ha, Hcur; now apply div_first_add).
+      assert (Hmod : pl_addr p mod wd = 0) by (rewrite Ha, Hcur; now apply mod_first_add).
+      split; [|split; [|eapply wr_le_trans; eassumption]].
+      * (* pending words *)
+        destruct c.
+        -- eapply pend_emitted_mono; [exact Hle|]. apply Forall_forall. intros [i v] Hin.
+           destruct Hc as [_ _ _ _ _ _ C7]. rewrite Forall_forall in C7. destruct (C7 _ Hin) as [P1 _].
+           eapply add_segment_emits; eauto.
+        -- apply Forall_forall. intros [i v] Hin. destruct Hc as [_ _ _ _ _ _ C7].
+           pose proof (pend_lt _ _ _ _ C7 Hin) as Hlt. destruct Wb as [Wb _]. fold n in Hlt. nia.
+      * constructor; [|exact Hst]. rewrite Est.
+        split; [rewrite Ha, Hcur; nia|]. split; [exact Hmod|]. split; [exact W2|].
+        intros Hlt. destruct c; [|destruct Wb as [Wb _]; rewrite Ha, Hcur in Hlt; nia].
+        cbn zeta in Wb. destruct Wb as (Eseg & _ & _ & Es & El & _).
+        exists (b_first st / wd), ((pl_next p - b_first st) / wd), (Z.of_nat (List.length (w_data (b_wr st)))),
+          (Z.of_nat (List.length (b_fj st ++ []))).
+        split; [apply Hle; rewrite Eseg; apply in_or_app; right; now left|].
+        rewrite List.app_nil_r. fold n. split; [now rewrite Hdiv|].
+        rewrite El at 2. rewrite Z.div_mul by lia. reflexivity.
+Qed.
+
+End Static.
+
+Lemma place_next ww env : forall P a L, place ww env P a = Some L ->
+  Forall (fun p => next_addr ww env (pl_stmt p) (pl_addr p) = Some (pl_next p)) L.
+Proof.
+  induction P as [|s P IH]; intros a L H; cbn [place] in H.
+  - injection H as <-. constructor.
+  - destruct (next_addr ww env s a) as [a'|] eqn:En; [|discriminate].
+    destruct (place ww env P a') as [L'|] eqn:E; [|discriminate]. injection H as <-.
+    constructor; [exact En|]. now apply (IH a').
+Qed.
+
+(* the clauses of Denotes other than the wflip clause *)
+Definition stmt_ok_static (ww : N) (img : image) (L : list placed) (lbls : labels) (p : placed) : Prop :=
+  match pl_stmt p with SWordFlip _ _ _ _ => True | _ => stmt_ok ww img L lbls p end.
+
+Theorem assemble_static_sound ww ver P segs words lbls :
+  assemble_model ww ver true P = Ok (segs, words, lbls) ->
+  lexical_labels P = true -> reserves_nonneg ww P lbls = true ->
+  exists L, place ww (lookup lbls) P 0 = Some L
+            /\ loadable_segs ww segs = true
+            /\ Forall (stmt_ok_static ww (image_of segs words) L lbls) L.
+Proof.
+  unfold assemble_model. intros H Hlex Hres.
+  pose proof (wz_pos ww) as Hw. pose proof (M_pos ww) as HM.
+  destruct (resolve_macros ww P) as [[ops l0]| |] eqn:Er; cbn [bind] in H; try discriminate.
+  destruct (labels_resolve ww ver true ops l0) as [stF| |] eqn:El; cbn [bind] in H; try discriminate.
+  destruct (negb (first_op_assembled (b_wr stF))); [discriminate|].
+  destruct (negb (packable ww (b_wr stF))); [discriminate|].
+  injection H as <- <- <-.
+  destruct (resolve_macros_spec ww P ops l0 l0 Er Hlex (extends_refl l0)) as (L0 & r0 & _ & Hops & _ & _ & Hkeys).
+  subst ops. unfold labels_resolve in El.
+  destruct (resolve_loop ww ver true _ r0) as [st1| |] eqn:Eloop; cbn [bind] in El; try discriminate.
+  set (st0 := mkb 0 (code_end 0 L0) 0 [] [] [] [] l0 0%N (mkw [] [])) in *.
+  assert (G0 : good ww st0).
+  { split; [split; constructor|]. intros i _. cbn [b_labels st0].
+    destruct (lookup l0 (wflip_label i)) as [v|] eqn:E; [|reflexivity]. now elim (Hkeys _ _ i E). }
+  destruct (resolve_loop_good _ _ _ _ _ _ Eloop G0) as [G1 X1]. cbn [b_labels st0] in X1.
+  destruct (close_good _ _ _ _ El G1) as [[HinvF _] E2].
+  assert (Hext : extends l0 (b_labels stF)) by (rewrite E2; exact X1).
+  destruct (resolve_macros_spec ww P _ l0 (b_labels stF) Er Hlex Hext) as (L & r & Hpl & Hops & Hrel & Hlab & _).
+  injection Hops as Hce Hr0. subst r.
+  exists L. split; [exact Hpl|]. split; [now apply wr_inv_loadable|].
+  assert (S0 : sinv ww (code_end 0 L0) [] st0).
+  { apply sinv_build with (first := 0) (cur := 0) (wr := mkw [] []) (n := 0%nat).
+    - constructor; unfold st0; cbn [b_first b_cur b_wr b_nextw b_wf b_fj b_pads List.length];
+        try reflexivity; try lia; apply Forall_nil.
+    - split; constructor.
+    - apply Z.mod_0_l. pose proof (wz_pos ww). unfold Layout.wd. lia.
+    - lia. }
+  assert (Hresn : Forall res_nonneg L).
+  { unfold reserves_nonneg in Hres. rewrite Hpl in Hres. apply Forall_forall. intros p Hp.
+    rewrite forallb_forall in Hres. specialize (Hres _ Hp). unfold res_nonneg.
+    destruct (pl_stmt p); auto. now apply Z.leb_le. }
+  destruct (run_static ww ver L r0 st0 st1 stF (code_end 0 L0) [] Eloop El Hrel
+              (place_chain ww _ _ _ _ Hpl) S0 Hce Hresn G0) as (_ & Hst & _).
+  pose proof (place_next ww _ _ _ _ Hpl) as Hnext.
+  apply Forall_forall. intros p Hp.
+  rewrite Forall_forall in Hst, Hlab, Hnext. specialize (Hst _ Hp). specialize (Hlab _ Hp). specialize (Hnext _ Hp).
+  unfold stmt_ok_static, stmt_ok, static_ok, label_ok in *.
+  assert (Hword : forall a v, in_memory ww v = true -> emitted ww ver (b_wr stF) a v ->
+                              word_is ww (image_of (read_segments (b_wr stF)) (read_words ww ver (b_wr stF))) a v).
+  { intros a v Hm (s & l & ds & dl & i & Hs & Hi & Ha & Hrb).
+    unfold in_memory in Hm. apply andb_true_iff in Hm. destruct Hm as [M1 M2]. apply Z.leb_le in M1. apply Z.ltb_lt in M2.
+    assert (Hn : norm ww ver a v = v).
+    { unfold norm. destruct (_ && _); [|reflexivity]. apply Z.mod_small. unfold Layout.wd in *. lia. }
+    rewrite Hn in Hrb. pose proof HinvF as [Hok _]. rewrite Forall_forall in Hok. pose proof (Hok _ Hs) as O. cbn in O.
+    unfold word_is, image_of, segs, mem0. cbn [i_segs i_mem]. subst a.
+    split; [lia|]. split; [eapply final_valid; eauto; lia|]. split; [unfold Layout.wd in *; lia|].
+    rewrite <- Hrb. eapply final_word; eauto. lia. }
+  destruct (pl_stmt p) as [f j ?|ea ev er ?|e ?|name ?|? ? ?|? ? ? ? ?|e ?|e ?] eqn:Est; auto.
+  - (* op *)
+    destruct Hst as (vf & vj & E1 & E2' & M1 & M2 & Hmod & X1' & X2).
+    exists vf, vj. change (wz ww) with (wd ww).
+    pose proof (Hword _ _ M1 X1') as W1. pose proof (Hword _ _ M2 X2) as W2.
+    repeat split; auto; try apply W1; try apply W2.
+    destruct W1 as [W0 _]. pose proof (Z.div_mod (pl_addr p) (wd ww) ltac:(unfold Layout.wd; lia)) as Hd.
+    rewrite Hmod in Hd. unfold Layout.wd in *. nia.
+  - (* macro call *) cbn in Hnext. discriminate.
+  - cbn in Hnext. discriminate.
+  - (* reserve *)
+    destruct Hst as (R1 & R2 & R3 & R4). change (wz ww) with (wd ww).
+    split; [exact R1|]. split; [exact R2|]. split; [exact R3|]. split.
+    + intros Hlt. destruct (R4 Hlt) as (s & l & ds & dl & Hs & Hsd & Hsl).
+      pose proof HinvF as [Hok _]. rewrite Forall_forall in Hok. pose proof (Hok _ Hs) as O. cbn in O.
+      exists (Z.to_N s, Z.to_N l). unfold image_of, segs. cbn [i_segs fst snd]. split.
+      * unfold read_segments. apply in_map_iff. exists (s, l, ds, dl). split; [reflexivity|exact Hs].
+      * lia.
+    + intros wa Hwa. unfold image_of, mem0. cbn [i_mem].
+      assert (Hlt : pl_addr p < pl_next p).
+      { destruct (Z_lt_le_dec (pl_addr p) (pl_next p)) as [|Hge]; [assumption|].
+        assert (pl_addr p = pl_next p) by lia. rewrite H in Hwa. lia. }
+      destruct (R4 Hlt) as (s & l & ds & dl & Hs & Hsd & Hsl).
+      eapply final_zero; eauto. lia.
 Qed.
